@@ -133,7 +133,7 @@ impl Runner {
                 match d {
                     Err(p) => self.bad.push(mk("panic", format!("continuing after errors: {}", p))),
                     Ok(vs) => {
-                        if !vs.iter().all(strs_ok) {
+                        if !std::panic::catch_unwind(|| vs.iter().all(strs_ok)).unwrap_or(false) {
                             self.bad.push(mk("str", "continuing after errors: a string, symbol or keyword is not well-formed UTF-8".into()));
                         }
                     }
@@ -142,8 +142,12 @@ impl Runner {
             match r {
                 Err(p) => self.bad.push(mk("panic", p)),
                 Ok((vs, err)) => {
-                    if !vs.iter().all(strs_ok) {
+                    // a str that holds ill-formed UTF-8 is undefined behaviour for whoever looks at it: examine the result
+                    // guarded, and do not go on to encode it
+                    let ok = std::panic::catch_unwind(|| vs.iter().all(strs_ok)).unwrap_or(false);
+                    if !ok {
                         self.bad.push(mk("str", "a string, symbol or keyword of the result is not well-formed UTF-8".into()));
+                        continue;
                     }
                     let res = json!({"res": if err.is_some() {"err"} else {"ok"}, "vs": vs.iter().map(val_to_json).collect::<Vec<_>>()});
                     if let Some((e, evs)) = exp {
